@@ -11,7 +11,8 @@ import itertools
 import numpy as np
 import z3
 
-from verifx import symx
+from verifx import symx, loader
+from verifx.symx import frac_of
 from verifx.harness import Obligation
 from . import common
 from .common import FileSpec, VarSpec
@@ -516,6 +517,105 @@ def _specs(tier):
     return specs
 
 
+class IoapiLen1(Obligation):
+    """named reducers along a length-1 dimension of an IOAPI file (the IOAPI
+    class overrides applyAlongDimensions): mean/min/max/sum give the value
+    back, var/std give zero -- data symbolic"""
+    mode = 'real'
+    validate_paths = 2
+    stubs = ('datetime (symdatetime)',)
+
+    def __init__(self, dim, red):
+        self.dim, self.red = dim, red
+        self.name = 'ioapi-apply[%s=%s on a length-1 dimension]' % (dim, red)
+        self.bounds = {'dims': 'TSTEP 2 (1 when reduced), LAY/ROW/COL 1..2'}
+        self._space = None
+
+    def _shape(self):
+        shp = {'TSTEP': 2, 'LAY': 2, 'ROW': 1, 'COL': 2}
+        shp[self.dim] = 1
+        return shp
+
+    def _build(self, IO, vals, symbolic):
+        shp = self._shape()
+        f = IO()
+        f.createDimension('TSTEP', shp['TSTEP']).setunlimited(True)
+        for k in ('LAY', 'ROW', 'COL'):
+            f.createDimension(k, shp[k])
+        f.SDATE, f.STIME, f.TSTEP = 2004100, 0, 10000
+        f.XORIG, f.YORIG, f.XCELL, f.YCELL = 0., 0., 1000., 1000.
+        f.VGLVLS = np.linspace(1, 0, shp['LAY'] + 1).astype('f')
+        f.VGTOP = 5000.
+        v = f.createVariable('O3', 'O' if symbolic else 'd',
+                             ('TSTEP', 'LAY', 'ROW', 'COL'), units='ppmV')
+        k = 0
+        for idx in np.ndindex(*v.shape):
+            v[idx] = vals[k]
+            k += 1
+        f.updatemeta()
+        return f
+
+    def _go(self, f, vals, claim, symbolic):
+        out = f.applyAlongDimensions(**{self.dim: self.red})
+        got = common.getdata(out.variables['O3'])
+        src_shape = tuple(self._shape()[k]
+                          for k in ('TSTEP', 'LAY', 'ROW', 'COL'))
+        claim('shape', z3.BoolVal(tuple(got.shape) == src_shape))
+        if tuple(got.shape) != src_shape:
+            return
+        eqs = []
+        for k, idx in enumerate(np.ndindex(*src_shape)):
+            exp = 0 if self.red in ('var', 'std') else vals[k]
+            eqs.append(common.eq_expr(got[idx], exp) if symbolic else
+                       common.close_expr(got[idx], exp, 1e-12))
+        claim('values', z3.And(*eqs))
+
+    def sym(self, ctx, h):
+        from verifx import symdatetime as sd
+        if self._space is None:
+            self._space = loader.TwinSpace(stubs={
+                'PseudoNetCDF.pncwarn': common.warn_stub(common.WarnRec()),
+                'datetime': sd.make_module()}, objfloat='all')
+        sp = self._space
+        IO = sp.twin('PseudoNetCDF.cmaqfiles._ioapi').ioapi_base
+        n = int(np.prod(list(self._shape().values())))
+        vals = [ctx.real('v%d' % i) for i in range(n)]
+        sd.YEAR_RANGE = (2003, 2005)
+        import sys
+        sys.setprofile(sp.profile())
+        try:
+            try:
+                f = self._build(IO, vals, True)
+                self._go(f, vals, h.claim, True)
+            except Exception as ex:
+                h.candidate('raised:' + type(ex).__name__, repr(ex)[:200])
+        finally:
+            sys.setprofile(None)
+
+    def real(self, inputs):
+        import warnings
+        with warnings.catch_warnings():
+            warnings.simplefilter('ignore')
+            from PseudoNetCDF.cmaqfiles._ioapi import ioapi_base as IO
+        n = int(np.prod(list(self._shape().values())))
+        vals = [float(frac_of(inputs.get('v%d' % i, i + 1)))
+                for i in range(n)]
+        viol = {}
+
+        def claim(label, e):
+            if not z3.is_true(z3.simplify(e)):
+                viol[label] = 'differs (%s)' % label
+        try:
+            with warnings.catch_warnings():
+                warnings.simplefilter('ignore')
+                with np.errstate(all='ignore'):
+                    f = self._build(IO, vals, False)
+                    self._go(f, vals, claim, False)
+        except Exception as ex:
+            viol['raised:' + type(ex).__name__] = repr(ex)[:200]
+        return {'obs': {}, 'violations': viol}
+
+
 def obligations(tier):
     obs = []
     reducers = ['sum', 'mean', 'min', 'max', 'prod', 'var', 'std']
@@ -551,4 +651,8 @@ def obligations(tier):
                 if c == 'conv3_same' and spec.dimlen(d) < 3:
                     continue
                 obs.append(ApplyStr(spec, 'convolve_dim', d, c))
+    for dim in ('LAY', 'ROW', 'TSTEP'):
+        for red in (('std', 'mean') if tier == 'quick' else
+                    ('std', 'var', 'mean', 'max', 'sum')):
+            obs.append(IoapiLen1(dim, red))
     return obs
